@@ -59,6 +59,10 @@ func renderBoth(m model.Packet, user, pass []byte, wire bool, flagOnly ...bool) 
 }
 
 func checkC18(c caseC18) (sig, msg string) {
+	guard.SetCurrent(func() []byte {
+		return mustJSON(vf.Failure{Property: "C18", Kind: "hang", Case: mustJSON(c), Signature: "hang", Message: "a library call made for this case did not return"})
+	})
+	defer guard.SetCurrent(nil)
 	m, err := unpackModel(c.ModelGob)
 	if err != nil {
 		return "harness", "harness: " + err.Error()
